@@ -141,6 +141,7 @@ func init() {
 			ruleIsolation(r)
 			ruleRelease(r)
 			ruleReadersIgnoreBuffers(r)
+			rulePool(r)
 			ruleUnits(r, "C02.units", unitsText, 5, reserveFns)
 		}})
 	register(&PropSpec{ID: "C03",
@@ -168,6 +169,8 @@ func init() {
 			ruleFilterOps(r)
 			rulePresence(r)
 			ruleCursor(r)
+			ruleBlockLoops(r)
+			rulePool(r)
 			ruleUnits(r, "C04.units", "filters, iteration and aggregates index per-block storage with block-relative offsets and hand absolute offsets to callbacks and the cursor", 12, filterFns)
 			ruleUnitDefs(r)
 			ruleL3f(r, only("(*column.Txn).With", "(*column.Txn).Union", "(*column.Txn).Range", "(column.rdNumber[T])."), 10)
@@ -246,6 +249,7 @@ func init() {
 			ruleL2(r)
 			ruleShard(r)
 			ruleSingleSection(r)
+			ruleBlockLoops(r)
 		}})
 	register(&PropSpec{ID: "C11",
 		Explanation: "Insert offsets never collide, reused offsets carry no stale data — structural part. (C11.reserve, L4) next() picks and marks the offset in one exclusive section, every fill-list access is under the collection mutex, the counter is atomic-only; (C11.markers) commitMarkers sets/clears fill bits per marker and recounts; (C03.rowdelete) row deletes reach every registry entry; (C01.arms, C03.arms) every kind's Delete arm clears presence / the index bit; (C11.order) updates are applied before markers; (C02.release) failing inserts and rollbacks release their offsets." + staticNote,
@@ -360,5 +364,6 @@ func init() {
 			ruleReplayOrder(r)
 			ruleRegister(r)
 			ruleRegistryLists(r)
+			rulePool(r)
 		}})
 }
